@@ -152,8 +152,9 @@ func lit(v val) expr { return expr{v: v} }
 
 // ---- attempts
 type attempt struct {
-	kind string // AS IN IX DE DL FI FL CL RD
+	kind string // AS IN IX DE DL FI FL CL CA RD
 	name string
+	y    string // CA: the variable whose value is passed
 	ex   expr
 	v    val
 	k    val
@@ -188,6 +189,8 @@ func (a attempt) enc() string {
 		return fmt.Sprintf("FL,%s,%s", a.name, strings.Join(parts, "."))
 	case "CL":
 		return fmt.Sprintf("CL,%s,%s", a.name, a.v.enc())
+	case "CA":
+		return fmt.Sprintf("CA,%s,%s,%s,%s", a.name, a.y, a.k.enc(), a.v.enc())
 	default:
 		return "RD," + a.name
 	}
@@ -227,6 +230,9 @@ func (a attempt) src(uniq *int) string {
 	case "CL":
 		*uniq++
 		return fmt.Sprintf("func(%s){%d;%s}(%s)", a.name, *uniq, a.name, a.v.src())
+	case "CA":
+		*uniq++
+		return fmt.Sprintf("func(%s){%d;%s[%s]=%s;%s}(%s)", a.name, *uniq, a.y, a.k.src(), a.v.src(), a.name, a.y)
 	default:
 		return a.name
 	}
@@ -271,6 +277,8 @@ func (a attempt) kindName() string {
 		return "loopvar-list"
 	case "CL":
 		return "parameter"
+	case "CA":
+		return "parameter-alias"
 	}
 	return "read"
 }
@@ -396,6 +404,8 @@ func decEvent(s string) event {
 		}
 	case "CL":
 		a.v = decValS(f[2])
+	case "CA":
+		a.y, a.k, a.v = f[2], decLeaf(f[3]), decValS(f[4])
 	}
 	return event{scope: s[0], a: a}
 }
@@ -511,7 +521,16 @@ func c19Run(c *Ctx, noReg bool, names []string, evs []event, line string) runRes
 	}
 	for idx, ev := range evs {
 		src := ev.src(&se.uniq)
+		passed := ""
+		if ev.a.kind == "CA" {
+			_, passed = se.value(ev.a.y)
+		}
 		out, panicked, errs := se.exec(src)
+		// (inside a loop the statement runs twice and the second call is passed what the first one wrote)
+		if ev.a.kind == "CA" && ev.scope != 'L' && object.Constant(ev.a.name) && strings.HasPrefix(out, "ok=") && out[3:] != passed {
+			c.Fail("const-param-changed-"+scopeName(ev.scope), line,
+				fmt.Sprintf("%s step %d %q: the parameter was bound to %s and evaluated to %s", mode, idx, src, passed, out[3:]))
+		}
 		c.Eval()
 		if panicked {
 			c.Fail("panic-"+ev.a.kindName(), line, fmt.Sprintf("%s step %d %q: %v", mode, idx, src, errs))
@@ -780,6 +799,35 @@ func corpus() ([][]string, [][]event) {
 				event{sc, asx("b", expr{kind: 'C', y: "M", k: vi(1), v: vi(95)})}, T(rd("M")))
 		}
 	}
+	// bursts of index writes to a constant: an accepted same-value write (C[i]=C[i], C[i]=<equal literal>) then a
+	// changing one; two changing ones; a write through an alias / parameter / nested function in between; with and
+	// without a plain assignment in between; both sides of the thresholds
+	for _, size := range []int{3, 8, 9, 10, 12} {
+		for _, sc := range []byte{'T', 'F', 'L'} {
+			C := parr(size, 0)
+			same0 := event{sc, ix("C", vi(0), vi(0))}
+			add([]string{"C", "b"}, T(as("C", C)), same0, event{sc, ix("C", vi(1), vi(99))}, T(rd("C")),
+				event{sc, ix("C", vi(-1), vi(42))}, event{sc, ix("C", vi(2), vi(98))}, T(rd("C")))
+			add([]string{"C", "b"}, T(as("C", C)), T(asx("C", expr{kind: 'C', y: "C", k: vi(0), v: vi(0)})), // C = f(C) with f writing the same value
+				event{sc, ix("C", vi(1), vi(97))}, same0, T(as("b", vi(1))), event{sc, ix("C", vi(1), vi(96))}, T(rd("C")))
+			add([]string{"C", "b"}, T(as("C", C)), same0, T(asx("b", expr{kind: 'N', y: "C"})), event{sc, ix("b", vi(1), vi(95))},
+				event{sc, ix("C", vi(1), vi(94))}, same0, event{'F', ix("b", vi(2), vi(93))}, event{sc, ix("C", vi(2), vi(92))}, T(rd("C")))
+			add([]string{"C", "b"}, T(as("C", C)), same0, event{sc, asx("b", expr{kind: 'C', y: "C", k: vi(1), v: vi(91)})},
+				event{sc, ix("C", vi(1), vi(90))}, same0, event{'G', ix("C", vi(3), vi(89))}, T(rd("C")))
+			// the parameter, constant-named, is an alias of a variable that was just index-assigned
+			add([]string{"ARR", "b"}, T(as("b", C)), event{sc, ix("b", vi(0), vi(0))}, event{sc, attempt{kind: "CA", name: "ARR", y: "b", k: vi(1), v: vi(99)}},
+				event{sc, ix("b", vi(2), vi(7))}, event{sc, attempt{kind: "CA", name: "ARR", y: "b", k: vi(-1), v: vi(98)}}, T(rd("b")))
+		}
+	}
+	for _, size := range []int{3, 4, 5, 7} {
+		for _, sc := range []byte{'T', 'F', 'L'} {
+			M := pmap(size, 1)
+			same1 := event{sc, ix("M", vi(1), vi(1))}
+			add([]string{"M", "b"}, T(as("M", M)), same1, event{sc, ix("M", vi(2), vi(99))}, event{sc, attempt{kind: "DE", name: "M", k: vi(1)}},
+				same1, event{sc, ix("M", vi(40), vi(1))}, T(asx("b", expr{kind: 'N', y: "M"})), event{sc, ix("b", vi(1), vi(5))}, same1,
+				event{sc, attempt{kind: "CA", name: "MP", y: "b", k: vi(2), v: vi(98)}}, T(rd("M")))
+		}
+	}
 	// every kind of attempt from nested scopes on an integer constant
 	for _, sc := range []byte{'T', 'F', 'G', 'L'} {
 		add([]string{"K", "x"}, T(as("K", vi(7))),
@@ -1018,6 +1066,28 @@ func c19Random(c *Ctx, nEvents int) {
 			if !object.Constant(n) && (x.kind == 'N' || x.kind == 'R') {
 				cur[n] = yv
 			}
+		case k < 30: // a burst of index writes on one name: same-value writes and changing ones back to back
+			if v.kind == 'a' && len(v.els) > 0 {
+				nb := 2 + c.R.Intn(3)
+				for j := 0; j < nb; j++ {
+					i := c.R.Intn(len(v.els))
+					w := v.els[i]
+					if c.R.Pct(45) {
+						w = randLeaf(c)
+					}
+					s2 := sc
+					if c.R.Pct(25) {
+						s2 = scopes[c.R.Intn(len(scopes))]
+					}
+					evs = append(evs, event{s2, ix(n, vi(int64(i)), w)})
+					if c.R.Pct(20) {
+						y := names[c.R.Intn(len(names))]
+						evs = append(evs, event{s2, attempt{kind: "CA", name: constNames[c.R.Intn(len(constNames))], y: y, k: randIndex(c, cur[y]), v: randLeaf(c)}})
+					}
+				}
+				continue
+			}
+			a = rd(n)
 		case k < 34:
 			d := int64(1)
 			if c.R.Bool() {
